@@ -1,4 +1,5 @@
 import Xo.Lemmas.Topo
+import Xo.Lemmas.Closure
 /-!
 # C14 — every class API is emitted once, after all of its dependencies; cycles are reported
 
@@ -166,5 +167,55 @@ theorem C14_kernel_classes (args : List (Name × Bool)) (ret : Option (Name × B
   · rintro (h | h)
     · left; exact ⟨(c, true), ⟨h, rfl⟩, rfl⟩
     · right; subst h; simp
+
+/-- **the closure loop**: for distinct root classes, what `sort_classes` collects is exactly the set of classes reachable through
+`_get_inner_types() + _depends_on`, each once; the dependency source it hands to `topological_sort` has these classes as its
+keys, each with its own dependency list, and is well formed (distinct keys, every dependency a key) - the hypothesis of
+`C14_once`, `C14_order`, `C14_cycle_iff` -/
+theorem C14_closure (u : Universe) (roots : List Name) (fuel : Nat) (classes : List Name) (deps : Source) (hr : roots.Nodup)
+    (h : closeLoop u fuel 0 roots [] = some (classes, deps)) :
+    WFS deps ∧ keys deps = classes ∧ (∀ e ∈ deps, e.2 = u.depsOf e.1) ∧ (∀ c, c ∈ classes ↔ Reach u roots c) := by
+  have inv0 : CInv u roots 0 roots [] :=
+    ⟨hr, by simp [keys], by intro e he; simp at he, fun c hc => hc, fun c hc => Reach.root c hc, Nat.zero_le _⟩
+  have inv := closeLoop_spec u roots fuel 0 roots [] (classes, deps) inv0 h
+  have hk : keys deps = classes := by have := inv.keys; simpa using this
+  refine ⟨⟨by rw [hk]; exact inv.nodup, fun e he p hp => by rw [hk]; exact (inv.own e he).2 p hp⟩, hk,
+    fun e he => (inv.own e he).1, fun c => ⟨inv.reach c, ?_⟩⟩
+  intro hc
+  induction hc with
+  | root c hc => exact inv.hroots c hc
+  | dep c d _ hd ih =>
+    have hck : c ∈ keys deps := by rw [hk]; exact ih
+    simp only [keys, List.mem_map] at hck
+    obtain ⟨e, he, rfl⟩ := hck
+    obtain ⟨q1, q2⟩ := inv.own e he
+    exact q2 d (by rw [q1]; exact hd)
+
+/-- **`sort_classes` as a whole**: when it returns a list, that list contains exactly the reachable classes that have a C API,
+each exactly once -/
+theorem C14_sort_classes (u : Universe) (roots : List Name) (fuel : Nat) (l : List Name) (hr : roots.Nodup)
+    (h : sortClasses u fuel roots = some (some l)) :
+    l.Nodup ∧ ∀ c, c ∈ l ↔ (Reach u roots c ∧ u.hasApi c = true) := by
+  simp only [sortClasses] at h
+  cases hcl : closeLoop u fuel 0 roots [] with
+  | none => simp [hcl] at h
+  | some cd =>
+    obtain ⟨classes, deps⟩ := cd
+    simp only [hcl] at h
+    obtain ⟨hw, hk, _, hreach⟩ := C14_closure u roots fuel classes deps hr hcl
+    cases ht : topoF (deps.length + 1) deps with
+    | none => simp [ht] at h
+    | some oc =>
+      obtain ⟨order, cyc⟩ := oc
+      cases cyc with
+      | true => simp [ht] at h
+      | false =>
+        simp only [ht, Option.some.injEq] at h
+        subst h
+        have ht' : topo deps = some (order, false) := by
+          simpa [topo, keys] using ht
+        obtain ⟨q1, q2⟩ := C14_once deps hw order ht'
+        refine ⟨q1.filter _, fun c => ?_⟩
+        rw [List.mem_filter, q2 c, hk, hreach c]
 
 end Topo
